@@ -81,6 +81,8 @@ def _worker_init(mod_name, base, counter):
 
 def execute_model(mod, model, wd):
     """Render and run all phases of a model; returns list of Results."""
+    if hasattr(mod, "execute"):
+        return mod.execute(model, wd)
     concs = mod.render(model)
     if isinstance(concs, dict):
         concs = [concs]
@@ -336,6 +338,10 @@ def campaign(mod, tier, seed, workers=None, max_runs=None, time_cap=None, out=sy
             for v in r["violations"]:
                 by_sig.setdefault(v["sig"], []).append((i, v))
 
+        gen_sigs = [s for s in by_sig if ":generator:" in s]
+        if gen_sigs:
+            i, v = by_sig[gen_sigs[0]][0]
+            raise build.HarnessError("the generator produced an invalid scenario (run %d, %s): %s" % (i, gen_sigs[0], v["msg"][:500]))
         exit_code = 0
         known_hit = {}
         new_sigs = []
